@@ -57,6 +57,38 @@ pub fn run_kestrel_rss(w: &World, args: &[String], timeout_s: u64) -> (CliObs, u
     (obs, kb)
 }
 
+/// `kestrel` in the middle of a pipeline whose consumer is slower than its producer: standard input is fed as fast as the
+/// tool takes it, nothing is read from its standard output for `stall_ms`, then the output is drained (and counted, not kept).
+/// Returns the observation (stdout empty), the peak resident set size in KiB (/usr/bin/time) and the number of bytes it wrote.
+pub fn run_kestrel_stalled_rss(w: &World, args: &[String], stall_ms: u64, timeout_s: u64) -> (CliObs, usize, usize) {
+    let dir = format!("/verif/.cache/tmp/{}-{}", std::process::id(), COUNTER.fetch_add(1, Ordering::SeqCst));
+    let _ = std::fs::remove_dir_all(&dir);
+    std::fs::create_dir_all(&dir).expect("scratch dir");
+    for (p, b) in &w.files { std::fs::write(format!("{}/{}", dir, p), b).expect("write fixture"); }
+    let mut cmd = Command::new("/usr/bin/time");
+    cmd.args(["-f", "%M", "-o", "rss.txt"]).arg(bin()).args(args).current_dir(&dir).env_clear().stdin(Stdio::piped()).stdout(Stdio::piped()).stderr(Stdio::piped());
+    for (k, v) in &w.env { cmd.env(k, v); }
+    unsafe { use std::os::unix::process::CommandExt; cmd.pre_exec(|| { libc::setsid(); Ok(()) }); }
+    let mut obs = CliObs::default();
+    let mut child = match cmd.spawn() { Ok(c) => c, Err(e) => { obs.stderr = format!("spawn failed: {}", e); let _ = std::fs::remove_dir_all(&dir); return (obs, 0, 0); } };
+    let stdin = child.stdin.take(); let data = w.stdin.clone();
+    let tin = std::thread::spawn(move || { if let Some(mut si) = stdin { let _ = si.write_all(&data); } });
+    let mut so = child.stdout.take().unwrap(); let mut se = child.stderr.take().unwrap();
+    let tout = std::thread::spawn(move || { std::thread::sleep(Duration::from_millis(stall_ms)); let mut n = 0usize; let mut buf = vec![0u8; 1 << 16]; loop { match so.read(&mut buf) { Ok(0) | Err(_) => break, Ok(k) => n += k } } n });
+    let terr = std::thread::spawn(move || { let mut v = vec![]; let _ = se.read_to_end(&mut v); v });
+    let t0 = Instant::now();
+    let status = loop {
+        match child.try_wait() { Ok(Some(s)) => break Some(s), Ok(None) => { if t0.elapsed() > Duration::from_secs(timeout_s) { let _ = child.kill(); let _ = child.wait(); obs.timed_out = true; break None; } std::thread::sleep(Duration::from_millis(5)); } Err(_) => break None }
+    };
+    let _ = tin.join();
+    let nout = tout.join().unwrap_or(0);
+    obs.stderr = String::from_utf8_lossy(&terr.join().unwrap_or_default()).to_string();
+    if let Some(s) = status { obs.exit = s.code(); obs.signal = s.code().is_none(); }
+    let kb = std::fs::read_to_string(format!("{}/rss.txt", dir)).ok().and_then(|t| t.trim().lines().last().and_then(|l| l.trim().parse().ok())).unwrap_or(0);
+    let _ = std::fs::remove_dir_all(&dir);
+    (obs, kb, nout)
+}
+
 /// like `run_kestrel`, but standard input is a terminal (nothing is ever typed on it)
 pub fn run_kestrel_tty(w: &World, args: &[String], timeout_s: u64) -> CliObs { run_kestrel_opts(w, args, true, timeout_s) }
 
